@@ -199,8 +199,10 @@ def classify(res, stderr):
                                  % (msg, p0['line_start'], norm[:80]))
             continue
         deg = [f for f in info['functions'] if f['fn'] == fn and f.get('degraded')]
-        if deg and not (kind == 'postcondition' and label):
-            res.undecided.append('%s: %s failed after loop annotations were dropped (%s): not decidable without new annotations'
+        if deg:
+            # proof aids (loop annotations / text-anchored hints) of this function were dropped because the code they
+            # were attached to changed: a failure may be due to the missing aid, so it is never reported as a violation
+            res.undecided.append('%s: %s failed after proof annotations were dropped (%s): not decidable without new annotations'
                                  % (fn, oid, deg[0]['degraded']))
             continue
         res.failed.append({'obligation': oid, 'kind': kind, 'fn': fn, 'label': label, 'gen_line': site['line_start'],
